@@ -133,6 +133,7 @@ type appRec struct {
 type Event struct {
 	kind string
 	args []Value
+	res  []Value
 }
 
 type State struct {
@@ -374,6 +375,17 @@ func flatten(v Value, out *[]*Term) bool {
 
 // iteValue merges two values under a condition; ok=false if not mergeable.
 func iteValue(c *Term, a, b Value) (Value, bool) {
+	// an unmodelled (opaque, identity-less) value on either side: the merge is unmodelled too
+	if oa, ok := a.(*Opaque); ok && oa.nilT == nil {
+		if _, same := b.(*Opaque); !same {
+			return &Opaque{typ: oa.typ, tag: "merged"}, true
+		}
+	}
+	if ob, ok := b.(*Opaque); ok && ob.nilT == nil {
+		if _, same := a.(*Opaque); !same {
+			return &Opaque{typ: ob.typ, tag: "merged"}, true
+		}
+	}
 	switch x := a.(type) {
 	case *Term:
 		y, ok := b.(*Term)
